@@ -149,7 +149,9 @@ class CustomGateDef:
         """Return a new tree with parameter indices replaced with values."""
         if isinstance(exp, lark.Token):
             if exp.type == 'PARAM_IDX':
-                return lark.Token('REAL', params[int(exp)])
+                # Parenthesized: the expression is evaluated as text, and
+                # a negative value is not an atom (-0.5 ^ 2 is -(0.5 ^ 2)).
+                return lark.Token('REAL', f'({float(params[int(exp)])!r})')
             else:
                 return exp
         children = [self.replace_param_indices(c, params) for c in exp.children]
